@@ -192,11 +192,16 @@ def jobs(tier, seed):
     shapes = list(CORE_SHAPES)
     for _ in range(nrand):
         shapes.append(gen_programs(rng, 3, max_occ, ['T', 'T', 'T', 'S', 'I', 'E', 'W', 'J']))
+    if tier != 'quick':
+        # larger fixed programs: 4 processes x 2 timeouts, 3 x 3, and a spawn/interrupt mix with 6 timeouts
+        shapes += [{'top': 4, 'scripts': [[['T'], ['T']], [['T'], ['T']], [['T'], ['T']], [['T'], ['T']]]},
+                   {'top': 3, 'scripts': [[['T'], ['T'], ['T']], [['T'], ['T'], ['T']], [['T'], ['T'], ['T']]]},
+                   {'top': 2, 'scripts': [[['T'], ['S', 2], ['T'], ['I', 1]], [['T'], ['T'], ['J', 2]], [['T'], ['E', 0], ['T']]]}]
     for si, sh in enumerate(shapes):
         nT = sum(1 for s in sh['scripts'] for i in s if i[0] == 'T')
         for sorts in (sortss if si < len(CORE_SHAPES) else [sortss[si % 3]]):
             js.append({'harness': 'prog', 'cfg': {'shape': sh, 'sorts': sorts, 'until': None},
-                       'weight': 4 ** nT, 'opts': {'max_seconds': 60 if tier == 'quick' else 300}})
+                       'weight': 4 ** nT, 'opts': {'max_seconds': 60 if tier == 'quick' else 400}})
         # numeric until-stop at a concrete instant the symbolic delays can hit
         if si % 2 == 0:
             js.append({'harness': 'prog', 'cfg': {'shape': sh, 'sorts': sortss[si % 3], 'until': 2},
